@@ -227,6 +227,13 @@ def run(ctx):
         if getc:
             chs.add(T("field", T("variant", getc[0][0][1], "Some"), "0"))
         sp = [v for a, v in g if Walker._eq_const(a) is not None and mir.strip(Walker._eq_const(a)[0]) in chs and Walker._eq_const(a)[1] == 32]
+        # (the same test as a match arm `Some(' ') => ..`: a switch on the character itself)
+        for a, v in g:
+            if isinstance(a, tuple) and mir.strip(a) in chs and not sp:
+                if v == 32:
+                    sp = [True]
+                elif isinstance(v, tuple) and v and v[0] == "other" and 32 in v[1]:
+                    sp = [False]
         if sp == [True]:
             classes.add("space")
             ck.ob("C13-T4", cb.path, "space->unmapped", _is_ok_none(ret))
@@ -239,7 +246,7 @@ def run(ctx):
         key_ok = mir.strip(a[1][2][1]) in chs and any("CHAR_ACCESS_MAP" in str(s) for s in subterms(a[1][2][0]))
         if v == "None":
             classes.add("unknown")
-            ck.ob("C13-T4", cb.path, "unknown-character->error", key_ok and isinstance(ret, tuple) and ret[0] == "agg" and ret[2] == "Err")
+            ck.ob("C13-T4", cb.path, "unknown-character->error", key_ok and _is_err(ret))
             continue
         sk = T("field", T("variant", a[1], "Some"), "0")
         sh = [vv for aa, vv in g if aa == T("field", sk, "sh")]
@@ -396,6 +403,13 @@ def run(ctx):
     c15.loader_chain_rule(ctx, ck, "C13-S12")
     ck.explanation = ("CHAR_ACCESS_MAP: %d inserts compared with the 94-character oracle; rows %s; row names %s; convert_row_to classes %s."
                       % (n_ins, {str(k): v for k, v in rowmap.items()}, disp, sorted(classes)))
+
+
+def _is_err(ret):
+    """Err(..) built here, or handed on by `?` from an Err built here (`.ok_or_else(|| ..)?`)"""
+    if isinstance(ret, tuple) and ret and ret[0] == "from_residual" and isinstance(ret[1], tuple) and ret[1] and ret[1][0] == "residual":
+        ret = ret[1][1]
+    return isinstance(ret, tuple) and len(ret) > 2 and ret[0] == "agg" and ret[2] == "Err"
 
 
 def _is_ok_none(ret):
